@@ -256,7 +256,47 @@ def positional_lists_keep_their_order(F, res, rule="Y21"):
            how="Vec::remove x%d, no reordering operation" % removes if not bad else "; ".join(bad))
 
 
+def one_memo_per_instantiation(F, res, rule="Y22"):
+    """Y22: every reference to a polymorphic function instantiates its type afresh (`id(1)` and `id("s")` in one body). The recursive
+    instantiator answers a part it has seen from a map keyed by the part's address (C10/Q18) - within ONE instantiation. The frozen
+    type of a callee comes from a memoised query, so every reference in a body presents the same addresses: a map that survives from
+    one instantiation to the next (a field of the context, taken with mem::take and put back) hands the second reference the
+    variables of the first, and `let b = id("s")` is an Int. The map the non-recursive entry hands to the recursive instantiator is
+    made right there by a constructor (`HashMap::new()` / `default()`), in the same call."""
+    cg = F.callgraph()
+    n, bad = 0, []
+    for p_, f in sorted(F.fns.items()):
+        if not p_.startswith("ide::ty::infer::InferCtx::") or not f.blocks or "{closure" in p_ or p_ not in cg.get(p_, ()):
+            continue
+        # a recursive method of the context that takes a map keyed by addresses: (usize, usize) / *const keys
+        maps = [i for i in range(1, f.d["arg_count"] + 1) if "HashMap<" in str(f.local_ty(i) or "") and ("usize" in str(f.local_ty(i)) or "*const" in str(f.local_ty(i)))]
+        if not maps:
+            continue
+        for g_, b, t in F.callers_of(lambda c, p_=p_: c == p_):
+            if g_.path == p_ or g_.path.startswith(p_ + "::{closure"):
+                continue                      # the recursive calls hand the map on
+            n += 1
+            dg = FL.Defs(g_)
+            for i in maps:
+                o = dg.origin_op(t["args"][i - 1])
+                base = o
+                if base.get("k") == "rv" and base["rv"]["k"] == "ref":
+                    base = dg.origin_place(base["rv"]["place"])
+                while base.get("k") == "field":
+                    base = base["base"]
+                ctor = base.get("k") == "call" and FL.short(callee(base["t"]) or callee_def(base["t"]) or "").rsplit("::", 1)[-1] in ("new", "default", "with_capacity", "with_hasher")
+                if not ctor:
+                    src = FL.short(callee(base["t"]) or callee_def(base["t"]) or "") if base.get("k") == "call" else base.get("k")
+                    bad.append("%s line %s: the map handed to %s comes from %s, not from a constructor in this call" % (FL.short(g_.path), t["ln"], FL.short(p_), src))
+    res.ob(rule, "instantiate/one-memo-per-instantiation", "the memo of parts already instantiated lives for one instantiation: the entry that starts the "
+           "recursive instantiator builds the map itself", n >= 1 and not bad, where="crates/ide/src/ty/infer.rs",
+           how="%d entry call(s), each with a freshly constructed map" % n if n and not bad else ("; ".join(bad) or "no memoised recursive instantiator found"))
+
+
 def run(F, res, tier):
+    from rules import c04 as _c04g
+    _c04g.operands_group_as_in_gleam(F, res, rule="Y23")   # the tree the inferencer types groups operators as Gleam does
+    one_memo_per_instantiation(F, res)
     positional_lists_keep_their_order(F, res)
     # Y2: the call graph behind the inference groups resolves callee names like the inferencer does
     from rules import c05
